@@ -36,7 +36,7 @@ func RandomAF(r *rand.Rand, maxBody int, parts, ext int) *astits.PacketAdaptatio
 	}
 	if parts&4 != 0 && left >= 1 {
 		a.HasSplicingCountdown = true
-		a.SpliceCountdown = int(U(r, 8))
+		a.SpliceCountdown = int(int8(U(r, 8))) // −128..127, boundary biased
 		left--
 	}
 	extSize := 0
@@ -54,6 +54,12 @@ func RandomAF(r *rand.Rand, maxBody int, parts, ext int) *astits.PacketAdaptatio
 		if extSize > left {
 			extSize = 0
 		}
+	}
+	// reserved bytes that close the extension (ISO 13818-1 2.4.3.4), now and then
+	resv := 0
+	if extSize > 0 && r.IntN(5) == 0 && left-extSize > 0 {
+		resv = 1 + r.IntN(min(left-extSize, 4))
+		extSize += resv
 	}
 	left -= extSize
 	if parts&8 != 0 && left >= 1 {
@@ -80,6 +86,7 @@ func RandomAF(r *rand.Rand, maxBody int, parts, ext int) *astits.PacketAdaptatio
 			e.SpliceType = uint8(U(r, 4))
 			e.DTSNextAccessUnit = &astits.ClockReference{Base: Clock33(r)}
 		}
+		e.ReservedLength = resv
 		a.AdaptationExtensionField = e
 	}
 	return a
